@@ -1012,6 +1012,9 @@ class Columns(Widget, WidgetContainerMixin, WidgetContainerListContentsMixin):
 
     def get_cursor_coords(self, size: tuple[()] | tuple[int] | tuple[int, int]) -> tuple[int, int] | None:
         """Return the cursor coordinates from the focus widget."""
+        if not self.contents:
+            return None
+
         w, _ = self.contents[self.focus_position]
 
         if not w.selectable():
@@ -1126,6 +1129,9 @@ class Columns(Widget, WidgetContainerMixin, WidgetContainerListContentsMixin):
 
     def get_pref_col(self, size: tuple[()] | tuple[int] | tuple[int, int]) -> int:
         """Return the pref col from the column in focus."""
+        if not self.contents:
+            return None
+
         widths, _, size_args = self.get_column_sizes(size, focus=True)
 
         w, _ = self.contents[self.focus_position]
